@@ -550,6 +550,54 @@ static void case_pq_random(Rng& rng, uint64_t)
 	judge_pq(x, a, x2, fam);
 }
 
+// P and Q asked for in a fresh process whose FIRST incomplete-gamma call sits exactly at an end of the a > 100 quadrature window (or at x = 0, or is an
+// ordinary one): whatever that first call leaves behind - a rule cached while the interval had no length - the following calls must not see it (seeded
+// change C06-r7m1; at most seeds the long-lived workers meet an ordinary a > 100 argument first, which hides it)
+static void case_pq_fresh_process(Rng& rng, uint64_t index)
+{
+	static const double AS[] = {121.0, 144.0, 400.0, 900.0, 2500.0, 10000.0, 110.25};
+	double a  = (index % 3 == 2) ? rng.uni(100.5, 5000.0) : AS[(index / 3) % 7];
+	int first = (int) (index % 4);	 // 0 upper window end, 1 lower window end, 2 x = 0, 3 an ordinary argument
+	double xf = first == 0 ? (a - 1.0) + 10 * std::sqrt(a) : first == 1 ? std::max(0.0, (a - 1.0) - 10 * std::sqrt(a)) : first == 2 ? 0.0 : a;
+	std::vector<std::pair<double, double>> q;
+	q.push_back({xf, a});
+	for(int i = 0; i < 6; i++)
+	{
+		double a2 = rng.coin(0.6) ? a : rng.uni(100.5, 5000.0);
+		q.push_back({std::max(0.0, a2 - 1 + rng.normal() * 2 * std::sqrt(a2)), a2});
+	}
+	set_params(J().d("first_x", xf).d("a", a).i("first_call_kind", first));
+	hash_param(xf), hash_param(a), hash_param_u(index);
+	mark_nontrivial();
+	Outcome o = run_isolated([&](const std::function<void(const std::string&)>& send) {
+		std::vector<double> v;
+		for(auto& e : q)
+			v.push_back(GammaQ(e.first, e.second)), v.push_back(GammaP(e.first, e.second));
+		send(std::string((const char*) v.data(), v.size() * sizeof(double)));
+	});
+	if(o.kind == WATCHDOG)
+	{
+		inconclusive("watchdog on a fresh-process incomplete gamma history");
+		return;
+	}
+	if(!expect_return("pq-fresh-process-returns", o))
+		return;
+	if(o.payload.size() != 2 * q.size() * sizeof(double))
+	{
+		require("pq-fresh-process-returns", false, [&] { return J().i("payload_bytes", (long long) o.payload.size()); }, "pq-payload-size");
+		return;
+	}
+	std::vector<double> v(2 * q.size());
+	memcpy(v.data(), o.payload.data(), o.payload.size());
+	for(size_t i = 0; i < q.size(); i++)
+	{
+		ld qr = Qref(q[i].first, q[i].second), pr = Pref(q[i].first, q[i].second);
+		auto det = [&] { return J().i("call", (long long) i).d("x", q[i].first).d("a", q[i].second).d("Q", v[2 * i]).d("P", v[2 * i + 1]).d("Qref", (double) qr).d("Pref", (double) pr).d("first_x", xf); };
+		judge("q-accuracy-1e-3-a>100", (double) fabsl((ld) v[2 * i] - qr), 1e-3, det);
+		judge("p-accuracy-1e-3-a>100", (double) fabsl((ld) v[2 * i + 1] - pr), 1e-3, det);
+	}
+}
+
 // deterministic lattice + the witnesses of the defects repaired in the gamma family
 static std::vector<std::pair<double, double>> grid_points()
 {
@@ -687,6 +735,7 @@ static void setup()
 	add_generator("factorial_orders", ctx().thorough ? 240 : 24, case_factorial);
 	add_generator("binomial_rows", NBIN + 1, case_binomial);
 	add_generator("binomial_histories", ctx().count(150, 3000), case_binomial_history);
+	add_generator("pq_fresh_processes", ctx().count(84, 2000), case_pq_fresh_process);
 	add_generator("pq_grid", GRID.size(), case_pq_grid);
 	add_generator("pq_random", ctx().count(200000, 6000000), case_pq_random);
 	add_generator("inverse", ctx().count(40000, 1000000), case_inverse);
